@@ -80,6 +80,7 @@ type Contract struct {
 	Locks      bool        // model the hold state of mutexes (locks.go)
 	Acquires    int        // see locks.go
 	HasAcquires bool
+	NoBlock    bool        // see locks.go
 	LockProps  []string    // properties whose runs get the relock/unlock/balance obligations
 	GuardProps []string    // properties whose runs get the guarded-field obligations
 	Split      bool        // prove postconditions separately for each way into a return
@@ -464,6 +465,10 @@ func parseContractFile(rel, src string) (*pkgSpec, error) {
 					return nil, fmt.Errorf("%s:%d: acquires <level>", rel, ln)
 				}
 				cur.Acquires, cur.HasAcquires = n, true
+			case "noblock":
+				// channel operations that may block are made with no levelled lock held (locks.go)
+				cur.Locks = true
+				cur.NoBlock = true
 			case "guards":
 				// guarded-field obligations, generated in the runs of the listed properties
 				cur.Locks = true
